@@ -29,10 +29,23 @@ def run_both(c, src, files=None, budget=None, name='t', prefill=None):
     return impl, model
 
 
+def message_of(mo):
+    """the text after `process_file: ` that src/err.rs prints for the model's (class, detail); None for I/O errors (the text is the
+    operating system's)"""
+    cls, d = mo[1], (mo[3] if len(mo) > 3 else '-')
+    if cls == 'Import': return "Import Error: Unknown module '%s'" % d
+    if cls == 'MultipleAssign': return "Variable '%s' reassigned" % d
+    if cls in ('Lex', 'Parse', 'Name', 'Type', 'Runtime', 'Memory'): return cls + ' Error'
+    return None
+
+
 def same_outcome(io, mo):
     if io[0] != mo[0]: return False
     if io[0] == 'failure':
-        return io[1] == mo[1] and tuple(io[2] or (0, 0)) == tuple(mo[2])
+        if not (io[1] == mo[1] and tuple(io[2] or (0, 0)) == tuple(mo[2])): return False
+        want = message_of(mo)
+        # the wording of the diagnostic: class text and, where the message names something (a module, a variable), that name
+        return want is None or len(io) < 4 or io[3] is None or io[3].strip() == want
     return True
 
 
